@@ -7,8 +7,8 @@ Set Extraction KeepSingleton.
 From Kardia Require Import Base.Anchor.
 Extraction "../ocaml/C20/model.ml" Anchor.anchor
   Model.nonce_of Model.zero_nonce Model.incr_nonce Model.le_decode Model.sealed_size
-  Model.new_conn Model.write Model.read Model.set_recv
-  Model.verify_auth
+  Model.new_conn Model.write Model.write_f Model.read Model.set_recv
+  Model.verify_auth Model.upgrade
   Model.enc_packet Model.delimited Model.max_packet_msg_size
   Model.new_chan Model.try_send Model.can_send Model.send_packet_msg Model.packetise
-  Model.recv_packet Model.recv_stream.
+  Model.recv_packet Model.recv_stream Model.recv_stream_then_len.
